@@ -673,6 +673,20 @@ fn c19(p: &Prog, rec: &mut Rec, tier: u8) {
             rec.v("max_duration", "", format!("max_duration=1h stopped early or differs: {} iterations vs {}", r.iters, n));
         }
     }
+    // --- both limits set: each is honoured on its own terms, the run ends at the first boundary at which either is reached
+    for (m, ms, c) in [(1_000_000usize, 0u64, 1usize), (1_000_000, 0, 2), (1_000_000, 0, 3), (1_000_000, 0, 5), (n + 7, 0, 4), (3, 3_600_000, 2), (n / 2 + 1, 3_600_000, 1), (2, 0, 3)] {
+        let mut cfg = base_cfg(tier);
+        cfg.max_permutations = Some(m);
+        cfg.max_duration_ms = Some(ms);
+        cfg.checkpoint_interval = Some(c);
+        let r = run(p, &cfg);
+        account(rec, &r);
+        let by_perm = ((m + c - 1) / c) * c - 1;
+        let expect = if ms == 0 { (c - 1).min(by_perm) } else { by_perm }.min(n);
+        if r.panic.is_some() || r.iters != expect || r.seq[..] != base.seq[..expect] {
+            rec.v(if ms == 0 { "max_duration" } else { "max_permutations" }, "", format!("max_permutations={} and max_duration={}ms with interval={}: ran {} iterations (panic {:?}), expected the first {} of the unrestricted sequence of {}", m, ms, c, r.iters, r.kind().map(|k| k.short()), expect, n));
+        }
+    }
     if rec.idx == 0 {
         max_threads_probe(rec);
     }
